@@ -105,7 +105,8 @@ pub fn check_set<T: DSet>(ctx: &mut Ctx, rep: &str, ds: &T, m: &MSym, rng: &mut 
 
     // orbits, orbit_reps, traversals over index subsets and seed lists
     let all_idx: Vec<usize> = (0..=dim).collect();
-    let idx_sets: Vec<Vec<usize>> = if exhaustive_subsets { subsets_of(&all_idx) } else { (0..4).map(|_| all_idx.iter().cloned().filter(|_| rng.chance(1, 2)).collect()).chain([all_idx.clone()]).collect() };
+    let huge = n > 5000;
+    let idx_sets: Vec<Vec<usize>> = if exhaustive_subsets { subsets_of(&all_idx) } else { (0..(if huge { 1 } else { 4 })).map(|_| all_idx.iter().cloned().filter(|_| rng.chance(1, 2)).collect()).chain([all_idx.clone()]).collect() };
     let seed_lists: Vec<Vec<usize>> = if exhaustive_subsets && n <= 5 {
         let mut l: Vec<Vec<usize>> = vec![];
         for a in 1..=n {
@@ -128,7 +129,7 @@ pub fn check_set<T: DSet>(ctx: &mut Ctx, rep: &str, ds: &T, m: &MSym, rng: &mut 
         l
     } else {
         let mut l = vec![(1..=n).collect::<Vec<_>>(), (1..=n).rev().collect()];
-        for _ in 0..4 {
+        for _ in 0..(if huge { 1 } else { 4 }) {
             let mut s: Vec<usize> = (1..=n).collect();
             rng.shuffle(&mut s);
             s.truncate(1 + rng.below(n.min(4)));
@@ -484,6 +485,67 @@ pub fn run(cfg: &Cfg) -> Report {
     });
     report.absorb(ctx);
 
+    // (C') large structured sets and a strip with more than 2^16 chambers, every representation
+    let mut big: Vec<MSym> = vec![];
+    {
+        let mut rng = Rng::stream(seed, 0x02_b0);
+        for (_, s) in gen::structured_2d_sets().into_iter().chain(gen::structured_3d_sets()) {
+            big.push(gen::random_branching(&mut rng, &s, &[1, 2, 3, 255, 256, 65536, 4294967296]).renumbered(&rng.perm1(s.n)));
+        }
+        for s in gen::connected_sets_upto(2, 3) {
+            big.push(gen::random_branching(&mut rng, &s, gen::BOUNDARY_VS));
+        }
+        let lad = gen::ladder_2d(cfg.tier.pick(16_386, 32_770));
+        big.push(gen::random_branching(&mut rng, &lad, &[1, 2, 3]));
+        if cfg.tier == crate::monitor::Tier::Thorough {
+            let lad = gen::ladder_2d(17_500);
+            big.push(gen::random_branching(&mut rng, &lad, &[1, 2]).renumbered(&rng.perm1(70_000)));
+        }
+    }
+    let ctx = par_items(cfg, &big, |ctx, k, m| {
+        let mut rng = Rng::stream(seed, 0x02_b100 + k as u64);
+        check_all_representations(ctx, m, &mut rng, false, m.n <= 1000);
+        ctx.nontrivial(digest(m));
+        ctx.count("structured_or_huge_sets");
+        if m.n > 65_536 {
+            ctx.count("sets_beyond_65536_chambers");
+        }
+    });
+    report.absorb(ctx);
+
+    // (C'') sets built through PartialDSet::new + grow(k) histories instead of new(size)
+    let ctx = par_range(cfg, cfg.tier.pick(3000, 60_000), |ctx, k| {
+        use rust_dsymbols::dsets::PartialDSet;
+        let mut rng = Rng::stream(seed, 0x02_b200 + k as u64);
+        let base = &bases[k % bases.len()];
+        let m = MSym::from_ops(base.dim, base.n, base.op.clone());
+        // random composition of the size: n = k0 + g1 + g2 + ... (g may be 0)
+        let mut parts = vec![1 + rng.below(m.n)];
+        while parts.iter().sum::<usize>() < m.n {
+            let rest = m.n - parts.iter().sum::<usize>();
+            parts.push(rng.below(rest + 1).max(if rng.chance(1, 5) { 0 } else { 1 }).min(rest));
+        }
+        let r = observe(|| {
+            let mut ds = PartialDSet::new(parts[0], m.dim);
+            for &g in &parts[1..] {
+                ds.grow(g);
+            }
+            for i in 0..=m.dim {
+                for d in 1..=m.n {
+                    ds.set(i, d, m.op[i][d]);
+                }
+            }
+            ds
+        });
+        ctx.eval();
+        match r {
+            Ok(ds) => check_set(ctx, "PartialDSet built by new + grow", &ds, &m, &mut rng, false),
+            Err(p) => ctx.violation(&format!("panic@{}", p.short_loc()), "PartialDSet::{new,grow,set}", json!({"symbol": m.to_text(), "size_composition": parts}), p.to_json(), "a set grown in steps answers like one allocated at once"),
+        }
+        ctx.count("grow_histories");
+    });
+    report.absorb(ctx);
+
     // (D) incomplete sets: no-panic only
     let ctx = par_range(cfg, cfg.tier.pick(20_000, 400_000), |ctx, k| {
         let mut rng = Rng::stream(seed, 0x02_c000 + k as u64);
@@ -575,6 +637,8 @@ pub fn run(cfg: &Cfg) -> Report {
     report.require_counter("generator_sets", 50);
     report.require_counter("generator_symbols", 50);
     report.require_counter("large_sets_100plus", 5);
+    report.require_counter("sets_beyond_65536_chambers", 1);
+    report.require_counter("grow_histories", 1000);
     report.require_counter("incomplete_sets_predicates_judged", 500);
     report
 }
